@@ -880,7 +880,7 @@ def vmEx : VM :=
   { ixs := ({} : IxS).apply (.addInst "a" "h" none) (by rfl),
     r := { prog := default, fx := [("a", { flowId := "a", loopId := none, hierPos := "0" })] } }
 
-example : WF vmEx := by
+theorem vmEx_wf : WF vmEx := by
   refine ⟨?_, ?_, ?_, ?_⟩
   · intro k a h; simp [vmEx, OMap.lookup] at h
   · exact ⟨by rfl, by decide⟩
@@ -891,6 +891,6 @@ example : WF vmEx := by
     · cases h; decide
     · cases h
 
-example : (match CoreVM.abortFlow 3 "a" [] false vmEx with | .ok _ _ => true | .error _ _ => false) = true := by rfl
+theorem vmEx_abort_ok : (match CoreVM.abortFlow 3 "a" [] false vmEx with | .ok _ _ => true | .error _ _ => false) = true := by rfl
 
 end NemoVerif.Lifetime.Refine
